@@ -34,6 +34,8 @@ def affected(files, allprops):
                 props.update(BY_DIR[k]); hit = True; break
         if not hit:
             return list(allprops)
+        if not d.startswith("tools"):
+            props.add("C06")   # every function of the generation path carries C06 obligations
         if not d.startswith("tools") and not d.startswith("internal/cmd"):
             props.update(INSTANCE)
     return [p for p in allprops if p in props]
@@ -81,6 +83,16 @@ def main():
     write(rows, head)
 
 def write(rows, head):
+    # rows of changes that were not re-run are kept
+    old = {}
+    if os.path.exists("/verif/benign/MATRIX.tsv"):
+        for l in open("/verif/benign/MATRIX.tsv").read().splitlines()[1:]:
+            f = l.split("\t")
+            if len(f) >= 4:
+                old[f[0]] = tuple(f[:4])
+    for r in rows:
+        old[r[0]] = tuple(r)
+    rows = list(old.values())
     with open("/verif/benign/MATRIX.tsv", "w") as f:
         f.write(f"# behaviour-preserving change x quick checks, /repo HEAD {head}; columns: name, checks that raised an alarm (must be none), checks UNDECIDED, checks run and clean\n")
         for r in sorted(rows):
